@@ -10,6 +10,7 @@ import (
 
 	"github.com/icon-project/goloop/common/log"
 	"github.com/icon-project/goloop/consensus"
+	"github.com/icon-project/goloop/consensus/fastsync"
 	"github.com/icon-project/goloop/module"
 	"pgregory.net/rapid"
 
@@ -332,6 +333,121 @@ func (r *simRun) learnCorrectParts() {
 			r.byzParts[m.bid] = ps
 		}
 	}
+}
+
+// simBlockResult is what a fast-sync peer hands to the engine: a block and the bytes of a commit vote list.
+type simBlockResult struct {
+	blk      module.BlockData
+	votes    []byte
+	consumed bool
+	rejected bool
+}
+
+func (b *simBlockResult) Block() module.BlockData { return b.blk }
+func (b *simBlockResult) Votes() []byte           { return b.votes }
+func (b *simBlockResult) Consume()                { b.consumed = true }
+func (b *simBlockResult) Reject()                 { b.rejected = true }
+
+// byzBlockResult: a Byzantine validator acts as the fast-sync peer of correct node j and hands it a block
+// (any block proposed so far, by anybody) with a commit vote list made of real precommits found in the
+// pool: all of one round (a genuine certificate if they are more than two thirds), a subset below the
+// threshold, the same with one signer repeated, precommits of several rounds mixed, or the precommits of
+// ANOTHER block. Whatever the node does with it is judged by the agreement and certificate oracles.
+func (r *simRun) byzBlockResult(j int) error {
+	s := r.s
+	rt := r.rt
+	n := s.nodes[j]
+	type recv interface {
+		ReceiveBlockResult(br fastsync.BlockResult)
+	}
+	eng, ok := n.cs.(recv)
+	if !ok {
+		r.counts["byzBlockResult.unsupported"]++
+		return nil
+	}
+	var keys []string
+	for k := range r.byzParts {
+		keys = append(keys, k)
+	}
+	sort.Strings(keys)
+	ps := r.byzParts[keys[rapid.IntRange(0, len(keys)-1).Draw(rt, "block")]]
+	blk, err := n.tn.BM.NewBlockDataFromReader(ps.NewReader())
+	if err != nil {
+		r.counts["byzBlockResult.undecodable"]++
+		return nil
+	}
+	h := blk.Height()
+	bid := fmt.Sprintf("%x", blk.ID())
+	kind := rapid.SampledFrom([]string{"allOfARound", "allOfARound", "belowThreshold", "repeatedSigner", "mixedRounds", "otherBlock"}).Draw(rt, "certificate")
+	src := bid
+	if kind == "otherBlock" {
+		var others []string
+		for _, d := range r.decisions[h] {
+			if o := fmt.Sprintf("%x", d.bid); o != bid {
+				others = append(others, o)
+			}
+		}
+		if len(others) == 0 {
+			kind = "allOfARound"
+		} else {
+			sort.Strings(others)
+			src = others[rapid.IntRange(0, len(others)-1).Draw(rt, "other")]
+		}
+	}
+	pcs := r.precommitsFor(h, src)
+	var rounds []int32
+	for rd := range pcs {
+		rounds = append(rounds, rd)
+	}
+	sort.Slice(rounds, func(a, b int) bool { return rounds[a] < rounds[b] })
+	if len(rounds) == 0 {
+		r.counts["byzBlockResult.noVotes"]++
+		return nil
+	}
+	vs := append([]*consensus.VoteMessage{}, pcs[rounds[rapid.IntRange(0, len(rounds)-1).Draw(rt, "round")]]...)
+	thr := 2*s.n/3 + 1
+	switch kind {
+	case "belowThreshold":
+		if len(vs) >= thr {
+			vs = vs[:rapid.IntRange(1, thr-1).Draw(rt, "keep")]
+		}
+	case "repeatedSigner":
+		if len(vs) >= thr {
+			vs = vs[:thr-1]
+		}
+		for len(vs) < thr+1 {
+			vs = append(vs, vs[rapid.IntRange(0, len(vs)-1).Draw(rt, "repeat")])
+		}
+	case "mixedRounds":
+		for _, rd := range rounds {
+			for _, v := range pcs[rd] {
+				dup := false
+				for _, w := range vs {
+					dup = dup || w == v
+				}
+				if !dup {
+					vs = append(vs, v)
+				}
+			}
+		}
+	}
+	cvl := consensus.NewCommitVoteList(nil, vs...)
+	if cvl == nil {
+		return nil
+	}
+	br := &simBlockResult{blk: blk, votes: cvl.Bytes()}
+	st := n.state()
+	s.logf("byzBlockResult(-> n%d at h%d r%d step%d: block h%d %s with %d precommits, %s)", j, st.Height, st.Round, st.Step, h, bid[:6], len(vs), kind)
+	s.beginEvent(j)
+	eng.ReceiveBlockResult(br)
+	r.counts["byzBlockResult."+kind]++
+	if br.consumed && h == st.Height {
+		r.counts["byzBlockResult.consumedAtCurrentHeight"]++
+	}
+	if br.rejected {
+		r.counts["byzBlockResult.rejected"]++
+	}
+	return s.settle()
 }
 
 // crashPick draws where the unsynced tail of a log is cut.
@@ -769,25 +885,37 @@ func (r *simRun) supportRound(h int64, round int32, skip map[int]bool) error {
 	}
 	// nodes behind this round (e.g. restarted ones): give them the correct nodes' votes of their
 	// own round again and push them by timeouts where a timer is pending
-	for _, j := range R {
-		for i := 0; i < 6; i++ {
-			st := s.nodes[j].state()
-			if st.Height != h || st.Round >= round {
-				break
-			}
-			if !st.HasTimer {
-				cur := st.Round
-				if err := s.flushTo(j, func(m *simMsg) bool {
-					return m.kind == "vote" && !m.byz && m.h == h && m.r == cur
-				}); err != nil {
-					return err
-				}
-				if st2 := s.nodes[j].state(); !st2.HasTimer {
+	// (several passes: a node may need the votes another node casts only after its own timeout; the
+	// Byzantine validators add nil precommits for the stalled round - once per round - so that +2/3
+	// precommits exist and everybody can leave it)
+	helped := map[int32]bool{}
+	for pass := 0; pass < 3; pass++ {
+		for _, j := range R {
+			for i := 0; i < 6; i++ {
+				st := s.nodes[j].state()
+				if st.Height != h || st.Round >= round {
 					break
 				}
-			}
-			if err := s.timeout(j); err != nil {
-				return err
+				if !st.HasTimer {
+					cur := st.Round
+					if pass > 0 && !helped[cur] {
+						helped[cur] = true
+						for _, b := range s.byzantine() {
+							r.byzVote(b, h, cur, consensus.VoteTypePrecommit, nil)
+						}
+					}
+					if err := s.flushTo(j, func(m *simMsg) bool {
+						return m.kind == "vote" && (!m.byz || pass > 0) && m.h == h && m.r == cur
+					}); err != nil {
+						return err
+					}
+					if st2 := s.nodes[j].state(); !st2.HasTimer {
+						break
+					}
+				}
+				if err := s.timeout(j); err != nil {
+					return err
+				}
 			}
 		}
 	}
@@ -947,6 +1075,9 @@ func (r *simRun) step() (bool, error) {
 	if len(live) >= 2 {
 		acts = append(acts, act{"splitLock", 2})
 	}
+	if s.f > 0 && len(live) > 0 && len(r.byzParts) > 0 {
+		acts = append(acts, act{"byzBlockResult", 2})
+	}
 	crashW := 1
 	if r.mode == "C02" {
 		crashW = 4
@@ -1069,6 +1200,9 @@ func (r *simRun) step() (bool, error) {
 		return true, nil
 	case "splitLock":
 		return true, r.splitLock()
+	case "byzBlockResult":
+		r.learnCorrectParts()
+		return true, r.byzBlockResult(r.pickNode("to", live))
 	case "crash":
 		j := r.pickNode("node", live)
 		before := s.tornCuts
@@ -1248,6 +1382,12 @@ func simRunCase(rt *rapid.T, mode string, profile string, rec *ev.Rec) {
 	}
 	if r.counts["oldPolka.stuck"] > 0 {
 		labels = append(labels, "oldPolkaStuck")
+	}
+	if r.counts["byzBlockResult.rejected"] > 0 {
+		labels = append(labels, "fastSyncBlockRejected")
+	}
+	if r.counts["byzBlockResult.consumedAtCurrentHeight"] > 0 {
+		labels = append(labels, "fastSyncBlockAccepted")
 	}
 	if r.counts["submitTxWhileDown"] > 0 {
 		labels = append(labels, "poolChangedWhileNodeDown")
